@@ -367,6 +367,9 @@ pub enum BOp {
     /// remove (false) / (re-)insert (true) the animated component on the entity: an animator whose
     /// entity has no target component still keeps time, changes state and announces it
     Target(bool),
+    /// a frame whose length brings the position to the installed timeline's total duration plus
+    /// {-2, -1, 0, 1, 2, 40, 400, 900, 1500} ns (an ordinary 1/512 s frame when that is not ahead)
+    FrameToEnd(u8),
 }
 
 #[derive(Clone, Debug, Serialize, Deserialize)]
@@ -388,7 +391,7 @@ fn bevy_timing_strategy() -> impl Strategy<Value = Timing> {
     let rep = prop_oneof![5 => Just(Rep::None), 3 => (0u32..=2).prop_map(Rep::Times), 2 => Just(Rep::Infinite)];
     let dy = (rep.clone(), any::<bool>(), prop::sample::select(vec![0.25f32, 0.5, 1.0, 1.5, 2.0, 3.0, 6.0, 0.125, 0.5625]), prop_oneof![3 => Just(0.0f32), 3 => prop::sample::select(vec![0.125f32, 0.5, 2.0, 3.0, 150.0])])
         .prop_map(|(repeat, reverse, cycle, delay)| Timing { cycle, delay, repeat, reverse });
-    let arb = (rep, any::<bool>(), prop::sample::select(vec![0.1f32, 0.3, 0.7, 1.1]), prop::sample::select(vec![0.0f32, 0.1, 0.3])).prop_map(|(repeat, reverse, cycle, delay)| Timing { cycle, delay, repeat, reverse });
+    let arb = (rep, any::<bool>(), prop::sample::select(vec![0.1f32, 0.3, 0.7, 1.1, 1.0 / 3.0, 1.0 / 7.0, 0.123456]), prop::sample::select(vec![0.0f32, 0.1, 0.3, 1.0 / 3.0])).prop_map(|(repeat, reverse, cycle, delay)| Timing { cycle, delay, repeat, reverse });
     prop_oneof![4 => dy, 1 => arb]
 }
 
@@ -405,6 +408,7 @@ fn c18_strategy() -> impl Strategy<Value = C18Case> {
         1 => any::<bool>().prop_map(BOp::SetTimeline),
         1 => (0u8..5).prop_map(BOp::Clock),
         1 => prop::bool::weighted(0.6).prop_map(BOp::Target),
+        2 => (0u8..9).prop_map(BOp::FrameToEnd),
     ];
     (
         desc::tl_strategy_animator(bevy_timing_strategy()),
@@ -418,7 +422,7 @@ fn c18_strategy() -> impl Strategy<Value = C18Case> {
         .prop_map(|(tl, other, with_timeline, start_disabled, start, ops, bystanders)| C18Case { bystanders, tl, other, with_timeline, start_disabled, start, ops })
 }
 
-const C18_LABELS: [&str; 15] = ["reached_ended", "frame_skipped_a_phase", "zero_frame", "disabled_frames", "reset_used", "set_timeline_used", "infinite", "exact_end_decision", "near_band", "playing_evaluated", "delayed", "no_timeline_start", "idle_bystander_first", "clock_paused_or_scaled", "frame_without_target_component"];
+const C18_LABELS: [&str; 16] = ["reached_ended", "frame_skipped_a_phase", "zero_frame", "disabled_frames", "reset_used", "set_timeline_used", "infinite", "exact_end_decision", "near_band", "playing_evaluated", "delayed", "no_timeline_start", "idle_bystander_first", "clock_paused_or_scaled", "frame_without_target_component", "frame_landing_next_to_the_end"];
 
 fn c18_judge(c: &C18Case, obs: &mut Obs) -> Result<(), String> {
     let mut app = App::new();
@@ -489,10 +493,25 @@ fn c18_judge(c: &C18Case, obs: &mut Obs) -> Result<(), String> {
                     w.app.world.entity_mut(entity).remove::<A>();
                 }
             }
-            BOp::Frame(sel) => {
-                let dns = DELTAS_NS[sel as usize % DELTAS_NS.len()];
-                obs.label_if(2, dns == 0);
+            BOp::Frame(_) | BOp::FrameToEnd(_) => {
                 let (st0, pos0, en0) = w.animator_a();
+                let dns = match *op {
+                    BOp::Frame(sel) => DELTAS_NS[sel as usize % DELTAS_NS.len()],
+                    BOp::FrameToEnd(sel) => {
+                        const OFF: [i64; 9] = [-2, -1, 0, 1, 2, 40, 400, 900, 1500];
+                        let total = cur.as_ref().map(|t| t.desc.timing.total()).unwrap_or(f64::INFINITY);
+                        let target = (total * 1e9).round() + OFF[sel as usize % OFF.len()] as f64;
+                        let ahead = target - pos0.as_nanos() as f64;
+                        if total.is_finite() && ahead > 0.0 && ahead < 1e15 {
+                            obs.label(15);
+                            ahead as u64
+                        } else {
+                            DELTAS_NS[1]
+                        }
+                    }
+                    _ => unreachable!(),
+                };
+                obs.label_if(2, dns == 0);
                 let has_target = w.comp_opt().is_some();
                 let comp0 = w.comp_opt().unwrap_or_else(|| start.clone());
                 let events = w.frame(dns);
@@ -561,13 +580,13 @@ fn c18(run: &mut Run) {
     let cases = run.tier.pick(50_000, 2_000_000);
     run.prop(
         "c18_schedule",
-        "proptest: timeline timing (delay 0/>0 incl. longer than any frame, repeat none/n/infinite, reverse) x start value x schedule <=40 of Frame(0, 1/512, 1/8, 1/2, 3, 100 s, 16.67 ms, 1 ns, ...)/Enable/Disable/Reset/SetTimeline/game-clock pause+speed/remove+re-insert the target component in a fresh Bevy App; per-frame oracle: allowed states from the position at frame start, time conservation, component == timeline(pos0) when Playing or newly Ended (terminal values), disabled = frozen, exactly one event per state change carrying the final state; non-trivial = reaches Ended and has a phase-skipping or zero-length frame",
+        "proptest: timeline timing (delay 0/>0 incl. longer than any frame, repeat none/n/infinite, reverse) x start value x schedule <=40 of Frame(0, 1/512, 1/8, 1/2, 3, 100 s, 16.67 ms, 1 ns, ...)/FrameToEnd(total -2..+1500 ns)/Enable/Disable/Reset/SetTimeline/game-clock pause+speed/remove+re-insert the target component in a fresh Bevy App; per-frame oracle: allowed states from the position at frame start, time conservation, component == timeline(pos0) when Playing or newly Ended (terminal values), disabled = frozen, exactly one event per state change carrying the final state; non-trivial = reaches Ended and has a phase-skipping or zero-length frame",
         &C18_LABELS,
         c18_strategy(),
         cases,
         c18_judge,
     );
-    for (l, f) in [("reached_ended", 0.3), ("frame_skipped_a_phase", 0.05), ("zero_frame", 0.5), ("disabled_frames", 0.1), ("reset_used", 0.2), ("infinite", 0.1), ("exact_end_decision", 0.3), ("playing_evaluated", 0.4), ("frame_without_target_component", 0.1)] {
+    for (l, f) in [("reached_ended", 0.3), ("frame_skipped_a_phase", 0.05), ("zero_frame", 0.5), ("disabled_frames", 0.1), ("reset_used", 0.2), ("infinite", 0.1), ("exact_end_decision", 0.3), ("playing_evaluated", 0.4), ("frame_without_target_component", 0.1), ("frame_landing_next_to_the_end", 0.2)] {
         run.require_label("c18_schedule", l, f);
     }
 }
